@@ -1,4 +1,6 @@
 import DaliVerif.Proofs.WireEnc
+import DaliVerif.Proofs.WireEnc2
+import DaliVerif.Proofs.WireEnc2Recv
 /-!
 # C18 — bytes exchanged with each gateway follow that gateway's wire format
 
@@ -11,7 +13,7 @@ the width": every `…_encode_conforms` therefore states conformance **and**
 refusal for every width at once; `…_refuses` spells the refusal out.
 -/
 namespace DaliVerif.Props.C18
-open DaliVerif Wire Spec.Gateways Proofs.WireEnc
+open DaliVerif Wire Spec.Gateways Proofs.WireEnc Proofs.WireEnc2
 open Gen.DriverConsts
 
 /-- the constants of the tree are the ones the formats were written with -/
@@ -119,11 +121,102 @@ theorem sci_length_fixed (bits data : Nat) (tw : Bool) (p : List Nat)
       · subst h24; simp [sciSend] at h; subst h; simp [sci_MAX_LEN]
       · simp [sciSend, h8, h16, h24] at h
 
-/- `checksum_valid` (∀ packets: `lubaCheck`/`sciCheck` of the format's packet) is NOT proved as a separate
-theorem (xor associativity/commutativity normalisation was not finished).  The checksum byte is part of the
-format that `luba_encode_conforms` / `sci_encode_conforms` equate the model with (the explicit xor chain in
-`Spec.Gateways.lubaSend` / `sciSend`); its validity is evaluated on instances below and by the harness. -/
+/-- hid.hasseb: every write is the 2-byte report of `_cmdtmpl` -/
+theorem hidhasseb_length_fixed (c : Cmd) (ws : List (List Nat)) (h : HidHasseb.encode c = .ok ws) :
+    ∀ w ∈ ws, w.length = hidhasseb_cmdtmpl_size := by
+  unfold HidHasseb.encode at h
+  split at h
+  · cases h
+  · split at h
+    · cases h
+    · rename_i fr heq
+      obtain ⟨rfl, _⟩ := packLenNat_ok _ _ _ heq
+      injection h with h; subst h
+      intro w hw
+      rw [List.eq_of_mem_replicate hw, Frame.toBytesBE_length]; rfl
+/-- daliserver: every message is the fixed 4 bytes `02 00 addr cmd` -/
+theorem daliserver_length_fixed (c : Cmd) (ws : List (List Nat)) (h : DaliServer.encode c = .ok ws) :
+    ∀ w ∈ ws, w.length = 4 := by
+  unfold DaliServer.encode at h
+  split at h
+  · cases h
+  · rename_i hb
+    simp only at h; injection h with h; subst h
+    intro w hw
+    have hb : c.frame.bits = 16 := by simpa using hb
+    rw [List.eq_of_mem_replicate hw]
+    simp [bytesOf_length, nbytes, hb]
+/-- legacy Tridonic: the fixed 64-byte report -/
+theorem ltridonic_length_fixed (sn : Nat) (c : Cmd) (p : List Nat) (h : LegacyTridonic.encode sn c = .ok p) :
+    p.length = 64 := by
+  unfold LegacyTridonic.encode at h
+  split at h
+  · injection h with h; subst h; simp
+  · cases h
+/-- legacy hasseb: the fixed 10-byte report -/
+theorem lhasseb_length_fixed (sn : Nat) (c : Cmd) (p : List Nat) (sn' : Nat)
+    (h : LegacyHasseb.encode sn c = .ok (p, sn')) : p.length = 10 := by
+  unfold LegacyHasseb.encode at h
+  split at h
+  · cases h
+  · injection h with h; injection h with h1 h2; subst h1; simp
+/-- ATX hat: one letter, **exactly two hex digits per frame byte**, newline (`nbytes bits` = ⌈bits/8⌉) -/
+theorem atx_length_exact (c : Cmd) (p : List Nat) (h : Atx.encode c = .ok p) :
+    p.length = 1 + 2 * nbytes c.frame.bits + 1 := by
+  obtain ⟨pfx, rfl, _, _⟩ := atx_shape c p h
+  simp [hexText_length, bytesOf_length]; omega
+
+/-! ### valid checksum — LUBA: starts with 'Y', the length byte fits, the xor of everything after 'Y' (checksum
+included) is 0; SCI: five bytes whose xor is 0.  For every command the encoder accepts (model) and for every
+packet of the format, every frame, priority and flag (no enumeration: xor-fold lemmas in `Proofs/WireEnc2`). -/
+
+/-- clause "a valid checksum": every packet the LUBA encoder hands to the transport passes the gateway's check -/
+theorem luba_checksum_valid (c : Cmd) (p : List Nat) (h : Luba.encode c = .ok p) : lubaCheck p = true :=
+  luba_checksum_model c p h
+/-- the same for the SCI encoder -/
+theorem sci_checksum_valid (c : Cmd) (p : List Nat) (h : Sci.encode c = .ok p) : sciCheck p = true :=
+  sci_checksum_model c p h
+/-- the explicit xor chain in the LUBA format is a valid checksum, for every data, priority and flag value -/
+theorem luba_format_checksum_valid (bits data prio : Nat) (tw : Bool) (p : List Nat)
+    (h : lubaSend bits data prio tw = some p) : lubaCheck p = true := by
+  by_cases h16 : bits = 16
+  · subst h16
+    have e : lubaSend 16 data prio tw = some ([0x59] ++
+        [0x32, 7, 0, 16, prio + (if tw then 128 else 0), data / 256 % 256, data % 256, 0, 0] ++
+        [xorAll [0x32, 7, 0, 16, prio + (if tw then 128 else 0), data / 256 % 256, data % 256, 0, 0]]) := by
+      rw [xorAll9]; rfl
+    rw [e] at h; injection h with h; subst h; exact lubaCheck_of_body _ (by simp)
+  · by_cases h24 : bits = 24
+    · subst h24
+      have e : lubaSend 24 data prio tw = some ([0x59] ++
+          [0x32, 7, 0, 24, prio + (if tw then 128 else 0), data / 65536 % 256, data / 256 % 256, data % 256, 0] ++
+          [xorAll [0x32, 7, 0, 24, prio + (if tw then 128 else 0), data / 65536 % 256, data / 256 % 256, data % 256, 0]]) := by
+        rw [xorAll9]; rfl
+      rw [e] at h; injection h with h; subst h; exact lubaCheck_of_body _ (by simp)
+    · simp [lubaSend, h16, h24] at h
+/-- the explicit xor chain in the SCI format is a valid checksum -/
+theorem sci_format_checksum_valid (bits data : Nat) (tw : Bool) (p : List Nat)
+    (h : sciSend bits data tw = some p) : sciCheck p = true := by
+  by_cases h8 : bits = 8
+  · subst h8
+    have e : sciSend 8 data tw = some ([0x80 + 0x20 + (if tw then 0x10 else 0) + 2, data % 256, 0, 0] ++
+        [xorAll [0x80 + 0x20 + (if tw then 0x10 else 0) + 2, data % 256, 0, 0]]) := by rw [xorAll4]; rfl
+    rw [e] at h; injection h with h; subst h; exact sciCheck_of_body _ (by simp)
+  · by_cases h16 : bits = 16
+    · subst h16
+      have e : sciSend 16 data tw = some ([0x80 + 0x20 + (if tw then 0x10 else 0) + 3, data / 256 % 256, data % 256, 0] ++
+          [xorAll [0x80 + 0x20 + (if tw then 0x10 else 0) + 3, data / 256 % 256, data % 256, 0]]) := by rw [xorAll4]; rfl
+      rw [e] at h; injection h with h; subst h; exact sciCheck_of_body _ (by simp)
+    · by_cases h24 : bits = 24
+      · subst h24
+        have e : sciSend 24 data tw = some ([0x80 + 0x20 + (if tw then 0x10 else 0) + 8, data / 65536 % 256,
+            data / 256 % 256, data % 256] ++
+            [xorAll [0x80 + 0x20 + (if tw then 0x10 else 0) + 8, data / 65536 % 256, data / 256 % 256, data % 256]]) := by
+          rw [xorAll4]; rfl
+        rw [e] at h; injection h with h; subst h; exact sciCheck_of_body _ (by simp)
+      · simp [sciSend, h8, h16, h24] at h
 example : lubaCheck [0x59, 0x32, 7, 0, 16, 0x85, 0xFE, 0x80, 0, 0, 0xDE] = true := by decide
+example : lubaCheck [0x59, 0x32, 7, 0, 16, 0x85, 0xFE, 0x80, 0, 0, 0xDF] = false := by decide
 example : sciCheck [0xA3, 0xFE, 0x80, 0, 0xDD] = true := by decide
 
 /-- "the send-twice flag exactly when the command requires it" -/
@@ -144,6 +237,81 @@ theorem daliserver_twice_iff (bits data : Nat) (tw : Bool) (ws : List (List Nat)
   by_cases h16 : bits = 16
   · subst h16; simp [daliserverSends] at h; subst h; simp
   · simp [daliserverSends, h16] at h
+
+/-- LUBA encoder: bit 7 of the mode byte is set exactly when the command is send-twice (every command) -/
+theorem luba_twice_iff (c : Cmd) (p : List Nat) (h : Luba.encode c = .ok p) : lubaTwiceBit p = c.sendtwice := by
+  unfold Luba.encode at h
+  simp only at h
+  split at h
+  · cases h
+  · injection h with h; subst h
+    obtain ⟨f, tw, q, s, dp⟩ := c
+    simp only [lubaTwiceBit, Luba.priority, List.cons_append, List.nil_append, List.getD_cons_zero, List.getD_cons_succ]
+    cases tw <;> cases q <;> cases s <;> cases dp <;> simp
+/-- LUBA format, any priority that fits the priority field -/
+theorem luba_format_twice_iff (bits data prio : Nat) (tw : Bool) (p : List Nat) (hp : prio < 128)
+    (h : lubaSend bits data prio tw = some p) : lubaTwiceBit p = tw := by
+  have ha := and128 prio hp
+  by_cases h16 : bits = 16
+  · subst h16; simp [lubaSend] at h; subst h; cases tw <;> simp [lubaTwiceBit, ha.1, ha.2]
+  · by_cases h24 : bits = 24
+    · subst h24; simp [lubaSend] at h; subst h; cases tw <;> simp [lubaTwiceBit, ha.1, ha.2]
+    · simp [lubaSend, h16, h24] at h
+/-- SCI format: control bit 0x10 -/
+theorem sci_format_twice_iff (bits data : Nat) (tw : Bool) (p : List Nat)
+    (h : sciSend bits data tw = some p) : sciTwiceBit p = tw := by
+  by_cases h8 : bits = 8
+  · subst h8; simp [sciSend] at h; subst h; cases tw <;> simp [sciTwiceBit]
+  · by_cases h16 : bits = 16
+    · subst h16; simp [sciSend] at h; subst h; cases tw <;> simp [sciTwiceBit]
+    · by_cases h24 : bits = 24
+      · subst h24; simp [sciSend] at h; subst h; cases tw <;> simp [sciTwiceBit]
+      · simp [sciSend, h8, h16, h24] at h
+/-- SCI encoder -/
+theorem sci_twice_iff (c : Cmd) (p : List Nat) (h : Sci.encode c = .ok p) : sciTwiceBit p = c.sendtwice := by
+  rw [sci_conforms c] at h
+  cases hs : sciSend c.frame.bits c.frame.data c.sendtwice with
+  | none => rw [hs] at h; cases h
+  | some q => rw [hs] at h; injection h with h; subst h; exact sci_format_twice_iff _ _ _ _ hs
+/-- ATX hat: the line starts with the send-twice letter `t` exactly for a send-twice 16-bit command (the hat has
+no send-twice letter for the other widths; the driver repeats those itself) -/
+theorem atx_twice_iff (c : Cmd) (p : List Nat) (h : Atx.encode c = .ok p) :
+    p.head? = some 116 ↔ (c.sendtwice = true ∧ c.frame.bits = 16) := by
+  obtain ⟨pfx, rfl, ht, _⟩ := atx_shape c p h
+  simpa using ht
+/-- legacy Tridonic: control bit 0x20 (false of the tree before `f0f9ae5`, which ignored `sendtwice`) -/
+theorem ltridonic_twice_iff (sn : Nat) (c : Cmd) (p : List Nat) (h : LegacyTridonic.encode sn c = .ok p) :
+    tridonicTwiceBit p = c.sendtwice := by
+  unfold LegacyTridonic.encode at h
+  split at h
+  · injection h with h; subst h
+    cases c.sendtwice <;> simp [tridonicTwiceBit]
+  · cases h
+/-- legacy hasseb: the send-twice byte (delay in ms) is 10 for a send-twice command and 0 otherwise -/
+theorem lhasseb_twice_iff (sn : Nat) (c : Cmd) (p : List Nat) (sn' : Nat) (h : LegacyHasseb.encode sn c = .ok (p, sn')) :
+    p.getD 6 0 = (if c.sendtwice then 10 else 0) := by
+  unfold LegacyHasseb.encode at h
+  split at h
+  · cases h
+  · injection h with h; injection h with h1 h2; subst h1
+    simp
+/-- UniPi: `DA_OPT_TWICE` in the option byte (high byte of the first register) -/
+theorem unipi_twice_iff (c : Cmd) (r0 r1 : Nat) (h : Unipi.encode c = .ok (r0, r1)) :
+    ((r0 >>> 8) &&& unipi_DA_OPT_TWICE != 0) = c.sendtwice := by
+  rw [unipi_conforms c] at h
+  obtain ⟨⟨bits, data⟩, tw, q, s, dp⟩ := c
+  simp only at h ⊢
+  by_cases h16 : bits = 16
+  · subst h16; simp [unipiRegs, expect] at h
+    obtain ⟨rfl, rfl⟩ := h
+    cases tw <;> simp [unipi_DA_OPT_TWICE, Nat.shiftRight_eq_div_pow]
+  · by_cases h24 : bits = 24
+    · subst h24; simp [unipiRegs, expect] at h
+      obtain ⟨rfl, rfl⟩ := h
+      have e3 : (768 + data / 65536 % 256) >>> 8 = 3 := by rw [Nat.shiftRight_eq_div_pow]; omega
+      have e11 : (2816 + data / 65536 % 256) >>> 8 = 11 := by rw [Nat.shiftRight_eq_div_pow]; omega
+      cases tw <;> simp [unipi_DA_OPT_TWICE, e3, e11]
+    · simp [unipiRegs, expect, h16, h24] at h
 
 /-! ## sequence numbers: in range, never repeated immediately — for every number of sends -/
 
@@ -188,11 +356,202 @@ theorem unipi_decode_wellformed (r0 r1 : Nat) (h : (r0 = 0x100 → r1 < 256) ∧
       omega
     · simp [Unipi.decode, unipiMeaning, h1, h2]
 
+/-- Tridonic DALI USB: every well-formed 64-byte response report means what the format says -/
+theorem tridonic_decode_wellformed (p : List Nat) (h : tridonicWellFormed p) : Tridonic.decode p = tridonicMeaning p :=
+  tridonic_decode_wf p h
+/-- Tridonic receive loop (`_send_raw`): the gateway sends, for the command's sequence number, one transmission
+confirmation per transmission (two for a send-twice command) and one answering report (backward frame / framing error /
+"no frame"), **in any order**, possibly interleaved with reports that mean nothing.  Then the loop returns the
+answering report's meaning for a query and nothing for any other command. -/
+theorem tridonic_receive_wellformed (c : Cmd) (msgs : List (List Nat)) (r : Meaning)
+    (hwf : ∀ m ∈ msgs, tridonicWellFormed m)
+    (hack : (msgs.map tridonicMeaning).count .ack = (if c.sendtwice then 2 else 1))
+    (hresp : (msgs.map tridonicMeaning).filter isResp = [r]) :
+    Tridonic.receive c msgs = some (if c.isQuery then r else .none) := by
+  obtain ⟨f, tw, q, s, dp⟩ := c
+  have := collect_spec q msgs _ Option.none r hwf hack (Or.inr ⟨rfl, hresp⟩)
+  unfold Tridonic.receive
+  cases tw <;> simpa using this
+/-- … and it keeps waiting (`Option.none`) as long as a confirmation or the answering report is missing -/
+theorem tridonic_receive_waits (c : Cmd) (msgs : List (List Nat)) (hwf : ∀ m ∈ msgs, tridonicWellFormed m)
+    (h : (msgs.map tridonicMeaning).count .ack < (if c.sendtwice then 2 else 1) ∨
+      (msgs.map tridonicMeaning).filter isResp = []) :
+    Tridonic.receive c msgs = Option.none := by
+  obtain ⟨f, tw, q, s, dp⟩ := c
+  unfold Tridonic.receive
+  apply collect_waits q msgs _ _ hwf
+  rcases h with h | h
+  · left; cases tw <;> simp at h ⊢ <;> omega
+  · right; right; exact ⟨rfl, h⟩
+/-- legacy Tridonic: every packet (any direction / type code) -/
+theorem ltridonic_decode_wellformed (p : List Nat) : LegacyTridonic.decode p = legacyTridonicMeaning p :=
+  ltridonic_decode_wf p
+/-- legacy hasseb: every report -/
+theorem lhasseb_decode_wellformed (p : List Nat) : LegacyHasseb.decode p = legacyHassebMeaning p := lhasseb_decode_wf p
+/-- ATX hat: a well-formed answer `<letter><hex><hex>` with or without the newline (digits in either case) -/
+theorem atx_decode_wellformed (letter c1 c2 hi lo : Nat) (h1 : Atx.hexVal? c1 = some hi) (h2 : Atx.hexVal? c2 = some lo) :
+    Atx.decode [letter, c1, c2, 10] = atxMeaning letter hi lo ∧ Atx.decode [letter, c1, c2] = atxMeaning letter hi lo :=
+  atx_decode_wf letter c1 c2 hi lo h1 h2
+/-- the hex text the format writes for a byte is such a pair of digits (non-vacuity of the hypotheses above) -/
+theorem atx_hexByte_digits : ∀ b, b < 256 → (hexByte b).mapM Atx.hexVal? = some [b / 16, b % 16] := hexVal_hexByte
+
+/-! ## frame bits in the prescribed field and alignment: the frame is recovered from the encoded packet -/
+
+/-- every frame of every width is recovered from `as_byte_sequence` read big-endian -/
+theorem frame_bytes_recoverable (f : Frame) (h : f.data < 2 ^ f.bits) :
+    Frame.ofBytesBE (bytesOf f) = f.data ∧ (bytesOf f).length = nbytes f.bits ∧ ∀ b ∈ bytesOf f, b < 256 :=
+  ⟨ofBytesBE_bytesOf f h, bytesOf_length f, bytesOf_lt f⟩
+/-- Tridonic: bytes 4..7 (big-endian, right-aligned) are the frame, byte 3 the mode code, byte 1 the sequence number -/
+theorem tridonic_frame_recoverable (seq : Nat) (c : Cmd) (p : List Nat) (hd : c.frame.data < 2 ^ c.frame.bits)
+    (h : Tridonic.encode seq c = .ok p) :
+    Frame.ofBytesBE ((p.drop 4).take 4) = c.frame.data ∧ p.getD 1 0 = seq ∧
+      p.getD 3 0 = (if c.frame.bits = 16 then tridonic_SEND_MODE_DALI16 else tridonic_SEND_MODE_DALI24) := by
+  refine ⟨tridonic_field seq c p h, ?_⟩
+  rw [tridonic_conforms seq c hd] at h
+  have h := expect_ok h
+  by_cases h16 : c.frame.bits = 16
+  · rw [h16] at h; simp [tridonicSend] at h; subst h; simp [h16, tridonic_SEND_MODE_DALI16]
+  · by_cases h24 : c.frame.bits = 24
+    · rw [h24] at h; simp [tridonicSend] at h; subst h; simp [h24, tridonic_SEND_MODE_DALI24]
+    · simp [tridonicSend, h16, h24] at h
+/-- hid.hasseb: each 2-byte write is the frame, big-endian -/
+theorem hidhasseb_frame_recoverable (c : Cmd) (ws : List (List Nat)) (h : HidHasseb.encode c = .ok ws) :
+    ∀ w ∈ ws, Frame.ofBytesBE w = c.frame.data := by
+  unfold HidHasseb.encode at h
+  split at h
+  · cases h
+  · split at h
+    · cases h
+    · rename_i fr heq
+      obtain ⟨rfl, hlt⟩ := packLenNat_ok _ _ _ heq
+      injection h with h; subst h
+      intro w hw
+      rw [List.eq_of_mem_replicate hw, Frame.ofBytesBE_toBytesBE]
+      exact Nat.mod_eq_of_lt hlt
+/-- LUBA format: bit count in byte 4, frame big-endian from the first of the four data bytes, the rest zero -/
+theorem luba_format_frame_recoverable (bits data prio : Nat) (tw : Bool) (p : List Nat) (hd : data < 2 ^ bits)
+    (h : lubaSend bits data prio tw = some p) :
+    Frame.ofBytesBE ((p.drop 6).take (bits / 8)) = data ∧ p.getD 4 0 = bits ∧
+      (p.drop (6 + bits / 8)).take (4 - bits / 8) = zeros (4 - bits / 8) := by
+  by_cases h16 : bits = 16
+  · subst h16; simp [lubaSend] at h; subst h; simp [Frame.ofBytesBE, zeros]; omega
+  · by_cases h24 : bits = 24
+    · subst h24; simp [lubaSend] at h; subst h; simp [Frame.ofBytesBE, zeros]; omega
+    · simp [lubaSend, h16, h24] at h
+/-- LUBA encoder -/
+theorem luba_frame_recoverable (c : Cmd) (p : List Nat) (hd : c.frame.data < 2 ^ c.frame.bits)
+    (h : Luba.encode c = .ok p) :
+    Frame.ofBytesBE ((p.drop 6).take (c.frame.bits / 8)) = c.frame.data ∧ p.getD 4 0 = c.frame.bits ∧
+      (p.drop (6 + c.frame.bits / 8)).take (4 - c.frame.bits / 8) = zeros (4 - c.frame.bits / 8) := by
+  rw [luba_conforms c] at h
+  exact luba_format_frame_recoverable _ _ _ _ _ hd (expect_ok h)
+/-- SCI format: mode nibble = width code 2/3/8, frame big-endian from the first data byte (pinned alignment), rest zero -/
+theorem sci_format_frame_recoverable (bits data : Nat) (tw : Bool) (p : List Nat) (hd : data < 2 ^ bits)
+    (h : sciSend bits data tw = some p) :
+    Frame.ofBytesBE ((p.drop 1).take (bits / 8)) = data ∧
+      p.getD 0 0 &&& 0x0F = (if bits = 8 then 2 else if bits = 16 then 3 else 8) ∧
+      (p.drop (1 + bits / 8)).take (3 - bits / 8) = zeros (3 - bits / 8) := by
+  by_cases h8 : bits = 8
+  · subst h8; simp [sciSend] at h; subst h; cases tw <;> simp [Frame.ofBytesBE, zeros] <;> omega
+  · by_cases h16 : bits = 16
+    · subst h16; simp [sciSend] at h; subst h; cases tw <;> simp [Frame.ofBytesBE, zeros] <;> omega
+    · by_cases h24 : bits = 24
+      · subst h24; simp [sciSend] at h; subst h; cases tw <;> simp [Frame.ofBytesBE, zeros] <;> omega
+      · simp [sciSend, h8, h16, h24] at h
+/-- SCI encoder -/
+theorem sci_frame_recoverable (c : Cmd) (p : List Nat) (hd : c.frame.data < 2 ^ c.frame.bits)
+    (h : Sci.encode c = .ok p) :
+    Frame.ofBytesBE ((p.drop 1).take (c.frame.bits / 8)) = c.frame.data ∧
+      p.getD 0 0 &&& sci_CONTROL_MODE_MASK =
+        (if c.frame.bits = 8 then sciCode_SEND_DALI_8 else if c.frame.bits = 16 then sciCode_SEND_DALI_16
+         else sciCode_SEND_DALI2_24) ∧
+      (p.drop (1 + c.frame.bits / 8)).take (3 - c.frame.bits / 8) = zeros (3 - c.frame.bits / 8) := by
+  rw [sci_conforms c] at h
+  exact sci_format_frame_recoverable _ _ _ _ hd (expect_ok h)
+/-- daliserver: bytes 2.. of each message -/
+theorem daliserver_frame_recoverable (c : Cmd) (hd : c.frame.data < 2 ^ c.frame.bits) (ws : List (List Nat))
+    (h : DaliServer.encode c = .ok ws) : ∀ w ∈ ws, Frame.ofBytesBE (w.drop 2) = c.frame.data := by
+  unfold DaliServer.encode at h
+  split at h
+  · cases h
+  · simp only at h; injection h with h; subst h
+    intro w hw
+    rw [List.eq_of_mem_replicate hw]
+    simpa using ofBytesBE_bytesOf c.frame hd
+/-- ATX hat: between the letter and the newline stand exactly two hex digits per frame byte whose value is the frame -/
+theorem atx_frame_recoverable (c : Cmd) (p : List Nat) (hd : c.frame.data < 2 ^ c.frame.bits)
+    (h : Atx.encode c = .ok p) :
+    ∃ ds, (p.drop 1).dropLast.mapM Atx.hexVal? = some ds ∧ ds.length = 2 * nbytes c.frame.bits ∧
+      ds.foldl (fun a d => a * 16 + d) 0 = c.frame.data ∧ p.getLast? = some 10 := by
+  obtain ⟨pfx, rfl, _, _⟩ := atx_shape c p h
+  refine ⟨nibbles (bytesOf c.frame), ?_, ?_, ?_, ?_⟩
+  · have : (([pfx] ++ hexText (bytesOf c.frame) ++ [10]).drop 1).dropLast = hexText (bytesOf c.frame) := by
+      simp
+    rw [this]; exact hexText_mapM _ (bytesOf_lt _)
+  · rw [nibbles_length, bytesOf_length]
+  · rw [nibbles_foldl]; exact ofBytesBE_bytesOf c.frame hd
+  · exact List.getLast?_concat
+/-- legacy Tridonic: bytes 4..7 right-aligned, byte 1 the sequence number -/
+theorem ltridonic_frame_recoverable (sn : Nat) (c : Cmd) (p : List Nat) (hd : c.frame.data < 2 ^ c.frame.bits)
+    (h : LegacyTridonic.encode sn c = .ok p) :
+    Frame.ofBytesBE ((p.drop 4).take 4) = c.frame.data ∧ p.getD 1 0 = sn := by
+  unfold LegacyTridonic.encode at h
+  split at h
+  · rename_i hb
+    have hb : c.frame.bits = 16 := by simpa using hb
+    injection h with h; subst h
+    obtain ⟨⟨bits, data⟩, tw, q, s, dp⟩ := c
+    simp only at hb hd; subst hb
+    simp [bytesOf16, Frame.ofBytesBE]; omega
+  · cases h
+/-- legacy hasseb: bytes 7..8, bit count in byte 3, sequence number in byte 2 -/
+theorem lhasseb_frame_recoverable (sn : Nat) (c : Cmd) (p : List Nat) (sn' : Nat) (hd : c.frame.data < 2 ^ c.frame.bits)
+    (h : LegacyHasseb.encode sn c = .ok (p, sn')) :
+    Frame.ofBytesBE ((p.drop 7).take 2) = c.frame.data ∧ p.getD 3 0 = c.frame.bits ∧ p.getD 2 0 = sn' := by
+  unfold LegacyHasseb.encode at h
+  split at h
+  · cases h
+  · rename_i hb
+    have hb : c.frame.bits = 16 := by simpa using hb
+    injection h with h; injection h with h1 h2; subst h1 h2
+    obtain ⟨⟨bits, data⟩, tw, q, s, dp⟩ := c
+    simp only at hb hd; subst hb
+    simp [bytesOf16, Frame.ofBytesBE]; omega
+/-- UniPi: 16 low bits in the second register, bits 16..23 of a 24-bit frame in the low byte of the first; width code
+2/3 in the option byte -/
+theorem unipi_frame_recoverable (c : Cmd) (r0 r1 : Nat) (hd : c.frame.data < 2 ^ c.frame.bits)
+    (h : Unipi.encode c = .ok (r0, r1)) :
+    (if c.frame.bits = 24 then r0 % 256 else 0) * 65536 + r1 = c.frame.data ∧ r1 < 65536 ∧
+      (r0 >>> 8) % 8 = (if c.frame.bits = 16 then 2 else 3) := by
+  rw [unipi_conforms c] at h
+  obtain ⟨⟨bits, data⟩, tw, q, s, dp⟩ := c
+  simp only at h hd ⊢
+  by_cases h16 : bits = 16
+  · subst h16; simp [unipiRegs, expect] at h
+    obtain ⟨rfl, rfl⟩ := h
+    simp [Nat.shiftRight_eq_div_pow]; cases tw <;> simp <;> omega
+  · by_cases h24 : bits = 24
+    · subst h24; simp [unipiRegs, expect] at h
+      obtain ⟨rfl, rfl⟩ := h
+      simp [Nat.shiftRight_eq_div_pow]; cases tw <;> simp <;> omega
+    · simp [unipiRegs, expect, h16, h24] at h
+
 /-! ## non-vacuity -/
 
 example : Luba.encode ⟨⟨16, 0xFE80⟩, true, false, false, false⟩ =
     .ok [0x59, 0x32, 7, 0, 16, 0x85, 0xFE, 0x80, 0, 0, 0xDE] := by decide
 example : Sci.encode ⟨⟨12, 0xABC⟩, false, false, false, false⟩ = .error .ValueError := by decide
 example : LegacyTridonic.getSn 255 = (255, 1) ∧ LegacyTridonic.getSn 1 = (1, 2) := by decide
+example : Atx.encode ⟨⟨16, 0xFE80⟩, true, false, false, false⟩ = .ok [116, 70, 69, 56, 48, 10] := by decide
+example : Atx.encode ⟨⟨24, 0xC1FE80⟩, true, false, false, false⟩ = .ok [108, 67, 49, 70, 69, 56, 48, 10] := by decide
+example : tridonicWellFormed ([0x12, 0x72, 0, 0, 0, 0x55] ++ zeros 58) ∧
+    Tridonic.decode ([0x12, 0x72, 0, 0, 0, 0x55] ++ zeros 58) = .backward 0x55 := by
+  refine ⟨⟨by decide, by decide, by decide⟩, by decide⟩
+example : Atx.decode [74, 102, 69, 10] = .backward 0xFE := by decide
+/-- response before the confirmations, send-twice query -/
+example : Tridonic.receive ⟨⟨16, 0xFF90⟩, true, true, true, false⟩
+    [[0x12, 0x72, 0, 0, 0, 0x55] ++ zeros 58, [0x12, 0x73, 0, 0, 0xFF, 0x90] ++ zeros 58,
+     [0x12, 0x73, 0, 0, 0xFF, 0x90] ++ zeros 58] = some (.backward 0x55) := by decide
+example : Unipi.encode ⟨⟨24, 0xC1FE80⟩, true, false, false, false⟩ = .ok (0xBC1, 0xFE80) := by decide
 
 end DaliVerif.Props.C18
